@@ -65,7 +65,8 @@ class C18(Oracle):
             got = list(c.get_records(cls))
             exp = [r for r in recs if isinstance(r, cls)]
             self.count("typed_listings")
-            if not same_objects(got, exp):
+            # exactly the instances of cls (order is promised for get_record only)
+            if sorted(map(id, got)) != sorted(map(id, exp)):
                 raise Violation(
                     "C18", "typed-listing", cls.__name__,
                     {"container": ch, "got": len(got), "expected": len(exp)},
@@ -90,10 +91,16 @@ class C18(Oracle):
                 spellings.append(
                     ("equal-ns-copy", QualifiedName(Namespace(ns.prefix, ns.uri), ident.localpart))
                 )
-            spellings.append(("identifier", Identifier(u)))
             for label, x in spellings:
                 got = c.get_record(x)
                 self.count("lookups")
+                if label == "printed":
+                    # what 'prefix:local' denotes here is the container's own resolution
+                    # (its correctness is C03's clause (c), not C18's)
+                    q = c.valid_qualified_name(x)
+                    exp = [] if q is None else by_uri.get(q.uri, [])
+                else:
+                    exp = by_uri[u]
                 if len(exp) > 0:
                     self.count("lookups_nonempty")
                 if len(exp) > 1:
@@ -144,8 +151,8 @@ class C18(Oracle):
             self.count("lookups_absent")
             if got:
                 raise Violation("C18", "lookup", "absent-found", {"container": ch, "identifier": u})
-        if c.get_record(None) is not None:
-            raise Violation("C18", "lookup", "none-not-none", {"container": ch})
+        if c.get_record(None):
+            raise Violation("C18", "lookup", "none-found-something", {"container": ch})
 
     @staticmethod
     def facts(c, ident, label):
